@@ -25,7 +25,7 @@ RULE = (
     "outside [0.5, 2]; distinct by JSON hash"
 )
 ASSUMPTIONS = ["jacobian_materialize(); IWP priors; x64; exact initial state and zero damping for the metamorphic part"]
-REQUIRED_LABELS = ["calib:mle", "calib:dynamic", "calib:none", "adaptive", "strategy:fixedinterval", "strategy:fixedpoint", "fact:dense", "fact:isotropic", "fact:blockdiag"]
+REQUIRED_LABELS = ["calib:mle", "calib:dynamic", "calib:none", "adaptive", "cinit", "strategy:fixedinterval", "strategy:fixedpoint", "fact:dense", "fact:isotropic", "fact:blockdiag"]
 MAX_INCONCLUSIVE = 0.5
 
 
@@ -37,6 +37,15 @@ def strategy(ctx):
         cfg = ssmcase.draw_structure(rng, strategies=("filter", "fixedinterval"), nmax=6, dmax=3, steps=(2, 8), inits=("exact",),
                                      calibs=("none", "mle", "mle_nocorr", "dynamic"))
         cfg["cinit"] = False
+        pool.append(cfg)
+    # the estimator with the optional initial-constraint datum (solver(..., constraint_init=...)): needs a non-degenerate
+    # initial covariance (inexact / diffuse initial states), where the base-scale relation (c) is not exact - parts (a), (b) only
+    for _ in range(max(1, size // 3)):
+        cfg = ssmcase.draw_structure(rng, strategies=("filter", "fixedinterval"), nmax=5, dmax=3, steps=(2, 8), inits=("inexact", "diffuse"),
+                                     calibs=("mle", "mle_nocorr", "mle", "dynamic", "none"))
+        if cfg["init"] == "diffuse":
+            cfg["diffuse"] = cfg["n"] - cfg["order"]  # the constrained coefficient is among the diffuse ones
+        cfg["cinit"] = True
         pool.append(cfg)
     pool_ad = []
     for _ in range(max(1, size // 2)):
@@ -115,7 +124,11 @@ def check_case(case):
         scaled = out_u["cov"] * np.outer(fac, fac)[None]
         ssmcase.compare_marginals(res, "b:mle_vs_unit", case, out["mean"], out["cov"], ref, pert, expected=(out_u["mean"], scaled), lib_idx=idx, idx=idx, tol0=tol0)
 
-    # (c) metamorphic: base scale x c
+    # (c) metamorphic: base scale x c (exact only for zero initial covariance)
+    if cfg["init"] != "exact":
+        res.label("cinit" if cfg.get("cinit") else "init:inexact")
+        res.nontrivial = cfg["num_steps"] >= 2
+        return res
     out_c = ssmcase.run_library(_scaled(case, c))
     _metamorphic(res, case, cfg, out, out_c, ref, pert, c, idx, tol0)
     return res
